@@ -32,11 +32,51 @@
 #include "upipe-modules/upipe_noclock.h"
 #include "upipe-modules/upipe_nodemux.h"
 #include "upipe-modules/upipe_setrap.h"
+#include "upipe-modules/upipe_dejitter.h"
+#include "upipe-modules/upipe_multicat_probe.h"
+#include "upipe-modules/upipe_aes_decrypt.h"
+#include "upipe-modules/uref_aes_flow.h"
+#include "upipe-modules/upipe_block_to_sound.h"
+#include "upipe-modules/upipe_dtsdi.h"
+#include "upipe-modules/upipe_rtp_pcm_unpack.h"
+#include "upipe-modules/upipe_m3u_reader.h"
+#include "upipe/uref_sound_flow.h"
 #include "upipe-ts/upipe_ts_sync.h"
 #include "upipe-ts/upipe_ts_check.h"
 #include "upipe-ts/upipe_ts_align.h"
 #include "upipe-ts/upipe_ts_psi_split.h"
 #include "upipe-ts/upipe_ts_split.h"
+#include "upipe-ts/upipe_ts_pid_filter.h"
+#include "upipe-ts/upipe_ts_pcr_interpolator.h"
+#include "upipe-ts/upipe_ts_tstd.h"
+#include "upipe-ts/upipe_ts_decaps.h"
+#include "upipe-ts/upipe_ts_pes_decaps.h"
+#include "upipe-ts/upipe_ts_psi_merge.h"
+#include "upipe-framers/upipe_opus_framer.h"
+#include "upipe-framers/upipe_telx_framer.h"
+#include "upipe-framers/upipe_s302_framer.h"
+#include "upipe-modules/upipe_void_source.h"
+#include "upipe-modules/upipe_even.h"
+#include "upipe-modules/upipe_trickplay.h"
+#include "upipe-modules/upipe_play.h"
+#include "upipe-modules/upipe_stream_switcher.h"
+#include "upipe-modules/upipe_separate_fields.h"
+#include "upipe-modules/upipe_row_split.h"
+#include "upipe-modules/upipe_row_join.h"
+#include "upipe-modules/upipe_ntsc_prepend.h"
+#include "upipe-modules/upipe_rtp_pcm_pack.h"
+#include "upipe-modules/upipe_audio_copy.h"
+#include "upipe-modules/upipe_crop.h"
+#include "upipe-modules/upipe_subpic_schedule.h"
+#include "upipe-modules/upipe_video_blank.h"
+#include "upipe-modules/upipe_audio_blank.h"
+#include "upipe-modules/upipe_sine_wave_source.h"
+#include "upipe-ts/upipe_ts_psi_join.h"
+#include "upipe/ubuf_pic_mem.h"
+#include "upipe/ubuf_sound_mem.h"
+#include "upipe/uref_pic.h"
+#include "upipe/uref_pic_flow.h"
+#include "upipe/uref_sound.h"
 #include "upipe-ts/uref_ts_flow.h"
 
 enum { O_C01 = 1, O_C04 = 2, O_C05 = 4, O_C20 = 8 };
@@ -92,6 +132,29 @@ struct row {
     const char *out_def_prefix; /* expected prefix of the definition presented to the sink */
     const char *in_def;        /* definition string the pipe expects (NULL: "block.") */
     struct upipe *(*sub_alloc)(struct side *, int k); /* NULL: upipe_void_alloc_sub */
+    /* generic rows: attributes the pipe requires in its input definition beyond the definition string (F1 / F2 only) */
+    void (*flow_fix)(struct uref *flow, int id);
+    int in_scale;              /* every input shape is this many times larger (0: 1) */
+    /* the five input shapes carry this content instead of the counting pattern (NULL: px_uref_segs with the shape's sizes);
+     * shape 3 (elsewhere the future-dated buffer) is then an ordinary fourth content */
+    const struct inshape *in_tab;
+    /* builds the input buffer itself (pictures, sound); NULL: in_tab, else px_uref_segs */
+    struct uref *(*mk_input)(struct side *, int seq, int sh, struct ubuf **held_p);
+    int pic_w, pic_h;          /* picture rows: size of the input pictures (and of the input definition) */
+    bool pic_chunks;           /* picture rows: shapes 1 and 3 are the top and bottom halves of a picture (with their vertical position) */
+    bool sub_io;               /* input subpipes: flow definitions and buffers go to subpipe 0 (the second subpipe stays an idle input) */
+    bool pump_to_main;         /* with sub_io: the main pipe is an input too; it gets its definition at allocation and the buffers of the upstream pump */
+    bool endless;              /* a source whose timer re-arms for ever: the loop is not drained before the release */
+    bool out_not_block;        /* the pipe asks for a non-block buffer manager: the sinks never answer requests themselves (they only have a block manager) */
+};
+
+/* content of one input shape of a table-driven row */
+struct inshape {
+    const char *desc;
+    const char *bytes;
+    int len;
+    int cut;                   /* > 0: two segments, the first of this many octets */
+    bool start, end;           /* block start / end flags */
 };
 
 struct side {
@@ -115,6 +178,7 @@ struct side {
     bool td_last;           /* teardown dispatches the last ready pump instead of the first */
     struct ubuf *held[MAXSEQ]; /* references kept on shared segments */
     int nheld;
+    struct ubuf_mgr *pic_mgr, *sound_mgr; /* picture / sound rows: the upstream's buffer managers (created on first use) */
 };
 
 struct expect {
@@ -174,6 +238,14 @@ struct st {
             snprintf((st_)->viol_msg, sizeof((st_)->viol_msg), __VA_ARGS__);   \
         }                                                                      \
     } while (0)
+
+/* input shapes: total size, segment sizes, future-dated, last segment shared with a reference the harness keeps */
+static const struct {
+    int size, nseg;
+    int seg[2];
+    bool future, shared;
+} shapes[NSHAPES] = {{2, 1, {2, 0}, false, false}, {5, 2, {3, 2}, false, false}, {0, 1, {0, 0}, false, false},
+                     {3, 1, {3, 0}, true, false}, {4, 2, {2, 2}, false, true}};
 
 /* ------------------------------------------------------------------ */
 /* option tables                                                        */
@@ -462,6 +534,401 @@ ALLOC_VOID(setrap, upipe_setrap_mgr_alloc)
 
 ALLOC_VOID(ts_split, upipe_ts_split_mgr_alloc)
 
+/* ---- second batch of generic rows ---- */
+ALLOC_VOID(dejitter, upipe_dejitter_mgr_alloc)
+ALLOC_VOID(multicat_probe, upipe_multicat_probe_mgr_alloc)
+ALLOC_VOID(aes_decrypt, upipe_aes_decrypt_mgr_alloc)
+ALLOC_VOID(dtsdi, upipe_dtsdi_mgr_alloc)
+ALLOC_VOID(rtp_pcm_unpack, upipe_rtp_pcm_unpack_mgr_alloc)
+ALLOC_VOID(m3u_reader, upipe_m3u_reader_mgr_alloc)
+ALLOC_VOID(ts_pcr_interpolator, upipe_ts_pcr_interpolator_mgr_alloc)
+ALLOC_VOID(ts_tstd, upipe_ts_tstd_mgr_alloc)
+
+/* PID of the test buffer number seq (octets 1 and 2 of its payload, see px_octet) */
+static unsigned pidf_pid(int seq) { return ((unsigned)(px_octet(seq, 1) & 0x1f) << 8) | px_octet(seq, 2); }
+static struct upipe *alloc_ts_pidf(struct side *s)
+{
+    struct upipe *p = upipe_void_alloc(upipe_ts_pidf_mgr_alloc(), px_probe(&s->fx));
+    assert(p);
+    for (int seq = 0; seq < MAXSEQ; seq++) /* two buffers out of three pass the filter */
+        if (seq % 3 != 2)
+            ubase_assert(upipe_ts_pidf_add_pid(p, pidf_pid(seq)));
+    return p;
+}
+
+/* block_to_sound is allocated with the sound format it has to announce: s32, 2 channels in one plane, 8 octets per sample */
+static struct upipe *alloc_block_to_sound(struct side *s)
+{
+    struct uref *f = uref_sound_flow_alloc_def(s->fx.uref_mgr, "s32.", 2, 8);
+    assert(f);
+    ubase_assert(uref_sound_flow_add_plane(f, "lr"));
+    ubase_assert(uref_sound_flow_set_rate(f, 48000));
+    struct upipe *p = upipe_flow_alloc(upipe_block_to_sound_mgr_alloc(), px_probe(&s->fx), f);
+    uref_free(f);
+    return p;
+}
+
+/* a test buffer with given octets (same attributes and dates as px_uref_segs) */
+static struct uref *cat_uref_data(struct px_fix *fx, int seq, const void *data, const int *sizes, int nseg, struct ubuf **held_p)
+{
+    struct uref *uref = NULL;
+    const uint8_t *d = data;
+    for (int sg = 0; sg < nseg; sg++) {
+        struct ubuf *ubuf = ubuf_block_alloc(fx->ubuf_mgr, sizes[sg]);
+        assert(ubuf);
+        if (sizes[sg]) {
+            uint8_t *w;
+            int sz = -1;
+            ubase_assert(ubuf_block_write(ubuf, 0, &sz, &w));
+            memcpy(w, d, sizes[sg]);
+            ubuf_block_unmap(ubuf, 0);
+            d += sizes[sg];
+        }
+        if (sg == nseg - 1 && held_p != NULL) {
+            *held_p = ubuf_dup(ubuf);
+            assert(*held_p);
+        }
+        if (uref == NULL) {
+            uref = uref_alloc(fx->uref_mgr);
+            assert(uref);
+            uref_attach_ubuf(uref, ubuf);
+        } else
+            ubase_assert(ubuf_block_append(uref->ubuf, ubuf));
+    }
+    ubase_assert(uref_attr_set_unsigned(uref, seq, UDICT_TYPE_UNSIGNED, "x.seq"));
+    uref_clock_set_cr_sys(uref, 5000 + 10 * seq);
+    uref_clock_set_cr_prog(uref, 7000 + 10 * seq);
+    uref_clock_set_cr_orig(uref, 9000 + 10 * seq);
+    uref_clock_set_cr_dts_delay(uref, 3);
+    uref_clock_set_dts_pts_delay(uref, 4);
+    return uref;
+}
+
+/* table-driven input: shape sh of the row's table */
+static struct uref *mk_table(struct side *s, int seq, int sh, struct ubuf **held_p)
+{
+    const struct inshape *t = &g_row->in_tab[sh];
+    int sizes[2] = {t->cut ? t->cut : t->len, t->len - t->cut};
+    struct uref *u = cat_uref_data(&s->fx, seq, t->bytes, sizes, t->cut ? 2 : 1, held_p);
+    if (t->start)
+        uref_block_set_start(u);
+    if (t->end)
+        uref_block_set_end(u);
+    return u;
+}
+#define INS(desc_, str_, cut_, start_, end_) {desc_, str_, (int)sizeof(str_) - 1, cut_, start_, end_}
+
+/* m3u_reader: pieces of a playlist; shape 0 opens a file (start flag), shape 4 closes it (end flag) */
+static const struct inshape tab_m3u[NSHAPES] = {
+    INS("#EXTM3U,start", "#EXTM3U\n", 0, true, false),
+    INS("#EXTINF+uri(2 segs)", "#EXTINF:2,\na.ts\n", 11, false, false),
+    INS("empty", "", 0, false, false),
+    INS("#EXT-X-VERSION", "#EXT-X-VERSION:3\n", 0, false, false),
+    INS("uri+#EXT-X-ENDLIST(2 segs,2nd shared),end", "b.ts\n#EXT-X-ENDLIST\n", 9, false, true),
+};
+
+/* dtsdi: shape 0 is a file header (version 0, 525i59.94, 16-bit full frames; the pipe wants 24 octets even for this 16-octet header), the rest payload */
+static const struct inshape tab_dtsdi[NSHAPES] = {
+    INS("file header", "DekTec.dtsdi\x00\x02\x01\x01\x00\x00\x00\x00\x00\x00\x00\x00", 0, false, false),
+    INS("5 octets(2 segs)", "\x11\x12\x13\x14\x15", 3, false, false),
+    INS("empty", "", 0, false, false),
+    INS("header v1", "DekTec.dtsdi\x01\x02\x01\x01\x10\x00\x00\x00\x01\x00\x00\x00", 0, false, false),
+    INS("4 octets(2 segs,2nd shared)", "\x21\x22\x23\x24", 2, false, false),
+};
+
+/* telx framer: frames are delimited by the start / end flags only */
+static const struct inshape tab_startend[NSHAPES] = {
+    INS("6 octets,start", "\x01\x02\x03\x04\x05\x06", 0, true, false),
+    INS("5 octets(2 segs)", "\x11\x12\x13\x14\x15", 3, false, false),
+    INS("empty", "", 0, false, false),
+    INS("4 octets,start+end", "\x31\x32\x33\x34", 0, true, true),
+    INS("4 octets(2 segs,2nd shared),end", "\x41\x42\x43\x44", 2, false, true),
+};
+/* s302 framer: a frame is a 4-octet header (payload size 10, 2 channels, 16 bit) + 10 octets; shapes 0+1+4 make one, shape 3 is one */
+static const struct inshape tab_s302[NSHAPES] = {
+    INS("header+3,start", "\x00\x0a\x00\x00\x01\x02\x03", 0, true, false),
+    INS("5 octets(2 segs)", "\x11\x12\x13\x14\x15", 3, false, false),
+    INS("empty", "", 0, false, false),
+    INS("whole frame,start+end", "\x00\x0a\x00\x00\x31\x32\x33\x34\x35\x36\x37\x38\x39\x3a", 0, true, true),
+    INS("2 octets(2 segs,2nd shared),end", "\x41\x42", 1, false, true),
+};
+/* opus framer (TS encapsulation): control header 0x7fe0, size, then the packet */
+static const struct inshape tab_opus[NSHAPES] = {
+    INS("whole frame of 3", "\x7f\xe0\x03\x08\xaa\xbb", 0, false, false),
+    INS("whole frame of 3(2 segs)", "\x7f\xe0\x03\x08\xcc\xdd", 3, false, false),
+    INS("empty", "", 0, false, false),
+    INS("garbage+first octet of a header", "\x01\x02\x7f", 0, false, false),
+    INS("rest of a frame of 2(2 segs,2nd shared)", "\xe0\x02\x08\xee", 3, false, false),
+};
+/* ts_decaps: TS packets cut short (PID 0x44); counters 0,1,3(jump),2 */
+static const struct inshape tab_ts[NSHAPES] = {
+    INS("unit start,cc0", "\x47\x40\x44\x10\x01\x02\x03\x04", 0, false, false),
+    INS("cc1(2 segs, header split)", "\x47\x00\x44\x11\x11\x12\x13", 3, false, false),
+    INS("empty", "", 0, false, false),
+    INS("cc3", "\x47\x00\x44\x13\x31\x32", 0, false, false),
+    INS("cc2,adaptation field of 2(2 segs,2nd shared)", "\x47\x00\x44\x32\x02\x00\xff\x41", 6, false, false),
+};
+/* ts_pes_decaps: PES headers (stream 0xe0) and payload pieces */
+static const struct inshape tab_pes[NSHAPES] = {
+    INS("unbounded PES header+2,start", "\x00\x00\x01\xe0\x00\x00\x80\x00\x00\x01\x02", 0, true, false),
+    INS("5 octets(2 segs)", "\x11\x12\x13\x14\x15", 3, false, false),
+    INS("empty", "", 0, false, false),
+    INS("PES header with PTS,length 10,+2,start", "\x00\x00\x01\xe0\x00\x0a\x80\x80\x05\x21\x00\x01\x00\x01\x31\x32", 0, true, false),
+    INS("PES header split(2 segs,2nd shared),start", "\x00\x00\x01\xe0\x00\x00\x80\x00\x00\x41", 5, true, false),
+};
+/* ts_psi_merge: TS payloads carrying sections of table 0x42 (no syntax indicator) */
+static const struct inshape tab_psi[NSHAPES] = {
+    INS("pointer 0,section of 8,start", "\x00\x42\x30\x05\x01\x02\x03\x04\x05", 0, true, false),
+    INS("pointer 0,first 5 of a section of 8(2 segs),start", "\x00\x42\x30\x05\x11\x12", 2, true, false),
+    INS("empty", "", 0, false, false),
+    INS("pointer 3,end of a section,new section of 5,start", "\x03\x31\x32\x33\x42\x30\x02\x34\x35", 0, true, false),
+    INS("3 octets(2 segs,2nd shared)", "\x41\x42\x43", 1, false, false),
+};
+
+ALLOC_VOID(telxf, upipe_telxf_mgr_alloc)
+ALLOC_VOID(s302f, upipe_s302f_mgr_alloc)
+ALLOC_VOID(opusf, upipe_opusf_mgr_alloc)
+ALLOC_VOID(ts_decaps, upipe_ts_decaps_mgr_alloc)
+ALLOC_VOID(ts_pesd, upipe_ts_pesd_mgr_alloc)
+ALLOC_VOID(ts_psim, upipe_ts_psim_mgr_alloc)
+
+/* main pipe and subpipes are inputs: the main pipe gets its definition here */
+static struct upipe *alloc_with_main_def(struct side *s, struct upipe_mgr *mgr)
+{
+    struct upipe *p = upipe_void_alloc(mgr, px_probe(&s->fx));
+    assert(p);
+    struct uref *f = px_flow(&s->fx, "block.", 8);
+    ubase_assert(upipe_set_flow_def(p, f));
+    uref_free(f);
+    return p;
+}
+static struct upipe *alloc_dejitter_both(struct side *s) { return alloc_with_main_def(s, upipe_dejitter_mgr_alloc()); }
+static struct upipe *alloc_subpic_both(struct side *s) { return alloc_with_main_def(s, upipe_subpic_schedule_mgr_alloc()); }
+ALLOC_VOID(subpic, upipe_subpic_schedule_mgr_alloc)
+ALLOC_VOID(even, upipe_even_mgr_alloc)
+ALLOC_VOID(trickp, upipe_trickp_mgr_alloc)
+ALLOC_VOID(play, upipe_play_mgr_alloc)
+ALLOC_VOID(stream_switcher, upipe_stream_switcher_mgr_alloc)
+
+/* void source: allocated with its output definition ("void." + the interval between two buffers) */
+static struct upipe *alloc_voidsrc(struct side *s)
+{
+    struct uref *f = px_flow(&s->fx, "void.", 9);
+    ubase_assert(uref_clock_set_duration(f, 1000));
+    struct upipe *p = upipe_flow_alloc(upipe_voidsrc_mgr_alloc(), px_probe(&s->fx), f);
+    uref_free(f);
+    return p;
+}
+
+/* ---- picture and sound inputs ---- */
+/* planar 4:2:0, 8 bits, with room above and below (ntsc_prepend wants 5 + 1 lines) */
+static struct ubuf_mgr *side_pic_mgr(struct side *s)
+{
+    if (s->pic_mgr == NULL) {
+        s->pic_mgr = ubuf_pic_mem_mgr_alloc(g_pool, g_pool, s->fx.umem_mgr, 1, 0, 0, 6, 2, 0, 0);
+        assert(s->pic_mgr);
+        ubase_assert(ubuf_pic_mem_mgr_add_plane(s->pic_mgr, "y8", 1, 1, 1));
+        ubase_assert(ubuf_pic_mem_mgr_add_plane(s->pic_mgr, "u8", 2, 2, 1));
+        ubase_assert(ubuf_pic_mem_mgr_add_plane(s->pic_mgr, "v8", 2, 2, 1));
+    }
+    return s->pic_mgr;
+}
+/* s32, two channels interleaved in one plane */
+static struct ubuf_mgr *side_sound_mgr(struct side *s)
+{
+    if (s->sound_mgr == NULL) {
+        s->sound_mgr = ubuf_sound_mem_mgr_alloc(g_pool, g_pool, s->fx.umem_mgr, 8, 0);
+        assert(s->sound_mgr);
+        ubase_assert(ubuf_sound_mem_mgr_add_plane(s->sound_mgr, "lr"));
+    }
+    return s->sound_mgr;
+}
+static void cat_stamp(struct uref *u, int seq)
+{
+    ubase_assert(uref_attr_set_unsigned(u, seq, UDICT_TYPE_UNSIGNED, "x.seq"));
+    uref_clock_set_cr_sys(u, 5000 + 10 * seq);
+    uref_clock_set_cr_prog(u, 7000 + 10 * seq);
+    uref_clock_set_cr_orig(u, 9000 + 10 * seq);
+    uref_clock_set_cr_dts_delay(u, 3);
+    uref_clock_set_dts_pts_delay(u, 4);
+}
+/* pictures: shape 0 progressive, 1 top field first (or the top half), 2 no attribute, 3 bottom field first (or the bottom half), 4 shared with the upstream */
+static struct uref *mk_pic(struct side *s, int seq, int sh, struct ubuf **held_p)
+{
+    int w = g_row->pic_w, h = g_row->pic_h, vpos = -1;
+    if (g_row->pic_chunks) {
+        vpos = sh == 3 ? h / 2 : sh == 2 ? -1 : 0;
+        if (sh == 1 || sh == 3)
+            h /= 2;
+    }
+    struct uref *u = uref_pic_alloc(s->fx.uref_mgr, side_pic_mgr(s), w, h);
+    assert(u);
+    static const char *const chroma[3] = {"y8", "u8", "v8"};
+    for (int pl = 0; pl < 3; pl++) {
+        uint8_t *b;
+        size_t stride;
+        uint8_t hsub, vsub;
+        ubase_assert(uref_pic_plane_size(u, chroma[pl], &stride, &hsub, &vsub, NULL));
+        ubase_assert(uref_pic_plane_write(u, chroma[pl], 0, 0, -1, -1, &b));
+        for (int y = 0; y < h / vsub; y++)
+            memset(b + y * stride, (uint8_t)(seq * 16 + pl * 4 + y), w / hsub);
+        ubase_assert(uref_pic_plane_unmap(u, chroma[pl], 0, 0, -1, -1));
+    }
+    cat_stamp(u, seq);
+    if (sh == 0)
+        ubase_assert(uref_pic_set_progressive(u));
+    if (sh == 1)
+        ubase_assert(uref_pic_set_tff(u));
+    if (vpos >= 0)
+        ubase_assert(uref_pic_set_vposition(u, vpos));
+    if (held_p != NULL) {
+        *held_p = ubuf_dup(u->ubuf);
+        assert(*held_p);
+    }
+    return u;
+}
+static void fix_pic(struct uref *f, int id)
+{
+    (void)id;
+    ubase_assert(uref_pic_flow_set_macropixel(f, 1));
+    ubase_assert(uref_pic_flow_set_planes(f, 0));
+    ubase_assert(uref_pic_flow_add_plane(f, 1, 1, 1, "y8"));
+    ubase_assert(uref_pic_flow_add_plane(f, 2, 2, 1, "u8"));
+    ubase_assert(uref_pic_flow_add_plane(f, 2, 2, 1, "v8"));
+    ubase_assert(uref_pic_flow_set_hsize(f, g_row->pic_w));
+    ubase_assert(uref_pic_flow_set_vsize(f, g_row->pic_h));
+    ubase_assert(uref_pic_flow_set_hsize_visible(f, g_row->pic_w));
+    ubase_assert(uref_pic_flow_set_vsize_visible(f, g_row->pic_h));
+    ubase_assert(uref_pic_flow_set_vprepend(f, 6));
+    ubase_assert(uref_pic_flow_set_vappend(f, 2));
+    struct urational fps = {25, 1};
+    ubase_assert(uref_pic_flow_set_fps(f, fps));
+}
+/* sound: 2, 5, 1, 3, 4 (shared) samples */
+static struct uref *mk_sound(struct side *s, int seq, int sh, struct ubuf **held_p)
+{
+    static const int n[NSHAPES] = {2, 5, 1, 3, 4};
+    struct uref *u = uref_sound_alloc(s->fx.uref_mgr, side_sound_mgr(s), n[sh]);
+    assert(u);
+    int32_t *w;
+    ubase_assert(uref_sound_write_int32_t(u, 0, -1, &w, 1));
+    for (int i = 0; i < 2 * n[sh]; i++)
+        w[i] = (int32_t)((uint32_t)(seq * 16 + i + 1) << 24 | 0x00345600);
+    ubase_assert(uref_sound_unmap(u, 0, -1, 1));
+    cat_stamp(u, seq);
+    if (held_p != NULL) {
+        *held_p = ubuf_dup(u->ubuf);
+        assert(*held_p);
+    }
+    return u;
+}
+static void fix_sound(struct uref *f, int id)
+{
+    (void)id;
+    ubase_assert(uref_sound_flow_set_channels(f, 2));
+    ubase_assert(uref_sound_flow_set_sample_size(f, 8));
+    ubase_assert(uref_sound_flow_set_planes(f, 0));
+    ubase_assert(uref_sound_flow_add_plane(f, "lr"));
+    ubase_assert(uref_sound_flow_set_rate(f, 48000));
+}
+
+ALLOC_VOID(separate_fields, upipe_separate_fields_mgr_alloc)
+ALLOC_VOID(row_join, upipe_row_join_mgr_alloc)
+ALLOC_VOID(ntsc_prepend, upipe_ntsc_prepend_mgr_alloc)
+/* rtp_pcm_pack: packets of 2 samples instead of a 1440-octet MTU, so that something comes out */
+static struct upipe *alloc_rtp_pcm_pack(struct side *s)
+{
+    struct upipe *p = upipe_void_alloc(upipe_rtp_pcm_pack_mgr_alloc(), px_probe(&s->fx));
+    assert(p);
+    ubase_assert(upipe_set_option(p, "output-samples", "2"));
+    return p;
+}
+/* row_split is allocated with the height of its chunks */
+static struct upipe *alloc_row_split(struct side *s)
+{
+    struct uref *f = px_flow(&s->fx, "pic.", 9);
+    ubase_assert(uref_pic_flow_set_vsize(f, 2));
+    struct upipe *p = upipe_flow_alloc(upipe_row_split_mgr_alloc(), px_probe(&s->fx), f);
+    uref_free(f);
+    return p;
+}
+/* audio_copy is allocated with the number of samples of its output buffers */
+static struct upipe *alloc_audio_copy(struct side *s)
+{
+    struct uref *f = px_flow(&s->fx, "sound.s32.", 9); /* the attributes given here override those of the input definition */
+    ubase_assert(uref_sound_flow_set_samples(f, 3));
+    struct upipe *p = upipe_flow_alloc(upipe_audio_copy_mgr_alloc(), px_probe(&s->fx), f);
+    uref_free(f);
+    return p;
+}
+
+/* crop: 2 columns off each side and 2 lines off the top of the 8x4 pictures */
+static struct upipe *alloc_crop(struct side *s)
+{
+    struct upipe *p = upipe_void_alloc(upipe_crop_mgr_alloc(), px_probe(&s->fx));
+    assert(p);
+    ubase_assert(upipe_crop_set_rect(p, 2, 2, 2, 0));
+    return p;
+}
+/* the blank generators are allocated with the format they produce and are driven by buffers without payload ("void.") */
+static struct uref *mk_void(struct side *s, int seq, int sh, struct ubuf **held_p)
+{
+    (void)sh, (void)held_p;
+    struct uref *u = uref_alloc(s->fx.uref_mgr);
+    assert(u);
+    cat_stamp(u, seq);
+    return u;
+}
+static struct upipe *alloc_vblk(struct side *s)
+{
+    struct uref *f = px_flow(&s->fx, "pic.", 9);
+    fix_pic(f, 9);
+    struct upipe *p = upipe_flow_alloc(upipe_vblk_mgr_alloc(), px_probe(&s->fx), f);
+    uref_free(f);
+    return p;
+}
+static struct upipe *alloc_ablk(struct side *s)
+{
+    struct uref *f = px_flow(&s->fx, "sound.s32.", 9);
+    fix_sound(f, 9);
+    ubase_assert(uref_sound_flow_set_samples(f, 3));
+    struct upipe *p = upipe_flow_alloc(upipe_ablk_mgr_alloc(), px_probe(&s->fx), f);
+    uref_free(f);
+    return p;
+}
+ALLOC_VOID(sinesrc, upipe_sinesrc_mgr_alloc)
+/* ts_psi_join is allocated with its output definition; its subpipes are the inputs */
+static struct upipe *alloc_ts_psi_join(struct side *s)
+{
+    struct uref *f = px_flow(&s->fx, "block.mpegtspsi.", 9);
+    struct upipe *p = upipe_flow_alloc(upipe_ts_psi_join_mgr_alloc(), px_probe(&s->fx), f);
+    uref_free(f);
+    return p;
+}
+
+/* attributes the pipes require in their input definition */
+static void fix_aes(struct uref *f, int id)
+{
+    uint8_t key[16], iv[16];
+    for (int i = 0; i < 16; i++) {
+        key[i] = (uint8_t)(id * 31 + i);
+        iv[i] = (uint8_t)(id * 17 + 3 * i);
+    }
+    ubase_assert(uref_aes_set_method(f, "AES-128"));
+    ubase_assert(uref_aes_set_key(f, key, 16));
+    ubase_assert(uref_aes_set_iv(f, iv, 16));
+}
+static void fix_pcm(struct uref *f, int id)
+{
+    ubase_assert(uref_sound_flow_set_rate(f, 48000));
+    ubase_assert(uref_sound_flow_set_channels(f, id)); /* F1 mono, F2 stereo */
+}
+static void fix_tstd(struct uref *f, int id)
+{
+    ubase_assert(uref_block_flow_set_octetrate(f, 2000 * id));
+    ubase_assert(uref_block_flow_set_buffer_size(f, 100));
+}
+
 /* output subpipes of the TS splitters are allocated with their own flow definition (filter / PID) */
 static struct upipe *sub_psi_split(struct side *s, int k)
 {
@@ -709,6 +1176,59 @@ static const struct row rows[] = {
     {.name = "noclock", .kind = K_RECHUNK, .alloc = alloc_noclock},
     {.name = "nodemux", .kind = K_RECHUNK, .alloc = alloc_nodemux},
     {.name = "setrap", .kind = K_RECHUNK, .alloc = alloc_setrap},
+    {.name = "dejitter", .kind = K_RECHUNK, .alloc = alloc_dejitter},
+    {.name = "multicat_probe", .kind = K_RECHUNK, .alloc = alloc_multicat_probe},
+    {.name = "aes_decrypt", .kind = K_RECHUNK, .alloc = alloc_aes_decrypt, .bad_def = "pic.", .in_def = "block.aes.", .flow_fix = fix_aes, .in_scale = 8,
+     .out_def_prefix = "block."},
+    {.name = "aes_decrypt_clear", .kind = K_RECHUNK, .alloc = alloc_aes_decrypt, .bad_def = "pic.", .out_def_prefix = "block."},
+    {.name = "block_to_sound", .kind = K_RECHUNK, .alloc = alloc_block_to_sound, .bad_def = "pic.", .in_scale = 16, .out_def_prefix = "sound.s32.", .out_not_block = true},
+    {.name = "dtsdi", .kind = K_RECHUNK, .alloc = alloc_dtsdi, .in_tab = tab_dtsdi},
+    {.name = "rtp_pcm_unpack", .kind = K_RECHUNK, .alloc = alloc_rtp_pcm_unpack, .bad_def = "block.", .in_def = "block.s24be.sound.", .flow_fix = fix_pcm,
+     .in_scale = 12, .out_def_prefix = "sound.s32.", .out_not_block = true},
+    {.name = "m3u_reader", .kind = K_RECHUNK, .alloc = alloc_m3u_reader, .bad_def = "pic.", .in_tab = tab_m3u, .out_def_prefix = "block.m3u."},
+    {.name = "ts_pidf", .kind = K_RECHUNK, .alloc = alloc_ts_pidf, .bad_def = "block.", .in_def = "block.mpegts.", .out_def_prefix = "block.mpegts."},
+    {.name = "ts_pcr_interpolator", .kind = K_RECHUNK, .alloc = alloc_ts_pcr_interpolator, .bad_def = "block.", .in_def = "block.mpegts.", .out_def_prefix = "block.mpegts."},
+    {.name = "ts_tstd", .kind = K_RECHUNK, .alloc = alloc_ts_tstd, .bad_def = "pic.", .flow_fix = fix_tstd},
+    {.name = "ts_decaps", .kind = K_RECHUNK, .alloc = alloc_ts_decaps, .bad_def = "block.", .in_def = "block.mpegts.mpegtspsi.", .in_tab = tab_ts, .out_def_prefix = "block.mpegtspsi."},
+    {.name = "ts_pes_decaps", .kind = K_RECHUNK, .alloc = alloc_ts_pesd, .bad_def = "block.", .in_def = "block.mpegtspes.mpeg2video.pic.", .in_tab = tab_pes,
+     .out_def_prefix = "block.mpeg2video.pic."},
+    {.name = "ts_psi_merge", .kind = K_RECHUNK, .alloc = alloc_ts_psim, .bad_def = "block.", .in_def = "block.mpegtspsi.", .in_tab = tab_psi, .out_def_prefix = "block.mpegtspsi."},
+    {.name = "telx_framer", .kind = K_RECHUNK, .alloc = alloc_telxf, .bad_def = "block.mpegts.", .in_def = "block.dvb_teletext.", .in_tab = tab_startend,
+     .out_def_prefix = "block.dvb_teletext."},
+    {.name = "s302_framer", .kind = K_RECHUNK, .alloc = alloc_s302f, .bad_def = "block.mpegts.", .in_def = "block.s302m.sound.", .in_tab = tab_s302,
+     .out_def_prefix = "block.s302m.sound."},
+    {.name = "opus_framer", .kind = K_RECHUNK, .alloc = alloc_opusf, .bad_def = "block.mpegts.", .in_def = "block.opus.", .in_tab = tab_opus, .out_def_prefix = "block.opus."},
+    {.name = "void_source", .kind = K_RECHUNK, .alloc = alloc_voidsrc, .uses_pumps = true, .endless = true, .out_def_prefix = "void."},
+    /* picture and sound inputs (buffers from the upstream's own picture / sound manager) */
+    {.name = "separate_fields", .kind = K_RECHUNK, .alloc = alloc_separate_fields, .bad_def = "block.", .in_def = "pic.", .flow_fix = fix_pic, .mk_input = mk_pic,
+     .pic_w = 8, .pic_h = 4, .out_def_prefix = "pic.", .out_not_block = true},
+    {.name = "row_split", .kind = K_RECHUNK, .alloc = alloc_row_split, .bad_def = "block.", .in_def = "pic.", .flow_fix = fix_pic, .mk_input = mk_pic,
+     .pic_w = 8, .pic_h = 4, .out_def_prefix = "pic.", .out_not_block = true},
+    {.name = "row_join", .kind = K_RECHUNK, .alloc = alloc_row_join, .bad_def = "block.", .in_def = "pic.", .flow_fix = fix_pic, .mk_input = mk_pic,
+     .pic_w = 8, .pic_h = 4, .pic_chunks = true, .out_def_prefix = "pic.", .out_not_block = true},
+    {.name = "ntsc_prepend", .kind = K_RECHUNK, .alloc = alloc_ntsc_prepend, .bad_def = "block.", .in_def = "pic.", .flow_fix = fix_pic, .mk_input = mk_pic,
+     .pic_w = 720, .pic_h = 480, .out_def_prefix = "pic.", .out_not_block = true},
+    {.name = "rtp_pcm_pack", .kind = K_RECHUNK, .alloc = alloc_rtp_pcm_pack, .bad_def = "block.", .in_def = "sound.s32.", .flow_fix = fix_sound, .mk_input = mk_sound,
+     .out_def_prefix = "block.s24be.sound."},
+    {.name = "audio_copy", .kind = K_RECHUNK, .alloc = alloc_audio_copy, .bad_def = "block.", .in_def = "sound.s32.", .flow_fix = fix_sound, .mk_input = mk_sound,
+     .out_def_prefix = "sound.s32.", .out_not_block = true},
+    {.name = "crop", .kind = K_RECHUNK, .alloc = alloc_crop, .bad_def = "block.", .in_def = "pic.", .flow_fix = fix_pic, .mk_input = mk_pic,
+     .pic_w = 8, .pic_h = 4, .out_def_prefix = "pic.", .out_not_block = true},
+    {.name = "video_blank", .kind = K_RECHUNK, .alloc = alloc_vblk, .bad_def = "block.", .in_def = "void.", .mk_input = mk_void, .pic_w = 8, .pic_h = 4,
+     .out_def_prefix = "pic.", .out_not_block = true},
+    {.name = "audio_blank", .kind = K_RECHUNK, .alloc = alloc_ablk, .bad_def = "block.", .in_def = "void.", .mk_input = mk_void, .out_def_prefix = "sound.s32.",
+     .out_not_block = true},
+    {.name = "sine_wave_source", .kind = K_RECHUNK, .alloc = alloc_sinesrc, .uses_pumps = true, .endless = true, .out_def_prefix = "sound.s16.", .out_not_block = true},
+    /* pipes whose subpipes are inputs: definitions and buffers go to subpipe 0, outputs are set on the subpipes (S2 / S3) or on the main pipe */
+    {.name = "dejitter_sub", .kind = K_RECHUNK, .alloc = alloc_dejitter_both, .has_subs = true, .sub_io = true, .pump_to_main = true},
+    {.name = "subpic_schedule", .kind = K_RECHUNK, .alloc = alloc_subpic},
+    {.name = "subpic_schedule_sub", .kind = K_RECHUNK, .alloc = alloc_subpic_both, .has_subs = true, .sub_io = true, .pump_to_main = true},
+    {.name = "even", .kind = K_RECHUNK, .alloc = alloc_even, .has_subs = true, .sub_io = true},
+    {.name = "trickplay", .kind = K_RECHUNK, .alloc = alloc_trickp, .has_subs = true, .sub_io = true},
+    {.name = "play", .kind = K_RECHUNK, .alloc = alloc_play, .has_subs = true, .sub_io = true},
+    {.name = "stream_switcher", .kind = K_RECHUNK, .alloc = alloc_stream_switcher, .has_subs = true, .sub_io = true},
+    {.name = "ts_psi_join", .kind = K_RECHUNK, .alloc = alloc_ts_psi_join, .has_subs = true, .sub_io = true, .bad_def = "block.", .in_def = "block.mpegtspsi.",
+     .in_tab = tab_psi, .out_def_prefix = "block.mpegtspsi."},
     {.name = "ts_psi_split", .kind = K_RECHUNK, .alloc = alloc_ts_psi_split, .bad_def = "block.", .in_def = "block.mpegtspsi.", .out_def_prefix = "block.mpegtspsi.",
      .has_subs = true, .sub_alloc = sub_psi_split},
     {.name = "ts_split", .kind = K_RECHUNK, .alloc = alloc_ts_split, .bad_def = "block.", .in_def = "block.mpegts.", .out_def_prefix = "block.mpegts.",
@@ -739,21 +1259,17 @@ enum {
     NOPS
 };
 
-/* input shapes: total size, segment sizes, future-dated, last segment shared with a reference the harness keeps */
-static const struct {
-    int size, nseg;
-    int seg[2];
-    bool future, shared;
-} shapes[NSHAPES] = {{2, 1, {2, 0}, false, false}, {5, 2, {3, 2}, false, false}, {0, 1, {0, 0}, false, false},
-                     {3, 1, {3, 0}, true, false}, {4, 2, {2, 2}, false, true}};
-
 static void opstr(int op, char *b, size_t n)
 {
     if (op == OP_FLOW1) snprintf(b, n, "set_flow_def(F1)");
     else if (op == OP_FLOW2) snprintf(b, n, "set_flow_def(F2)");
     else if (op == OP_FLOWBAD) snprintf(b, n, "set_flow_def(bad)");
+    else if (op >= OP_IN0 && op < OP_IN0 + NSHAPES && g_row && g_row->mk_input)
+        snprintf(b, n, "input(%s shape %d)", g_row->mk_input == mk_pic ? "picture" : g_row->mk_input == mk_sound ? "sound" : "no payload,", op - OP_IN0);
+    else if (op >= OP_IN0 && op < OP_IN0 + NSHAPES && g_row && g_row->in_tab)
+        snprintf(b, n, "input(%s)", g_row->in_tab[op - OP_IN0].desc);
     else if (op >= OP_IN0 && op < OP_IN0 + NSHAPES)
-        snprintf(b, n, "input(size=%d,segs=%d%s%s%s)", shapes[op - OP_IN0].size, shapes[op - OP_IN0].nseg, shapes[op - OP_IN0].nseg == 2 && shapes[op - OP_IN0].seg[0] == 3 ? ":3+2" : "",
+        snprintf(b, n, "input(size=%d,segs=%d%s%s%s)", shapes[op - OP_IN0].size * (g_row && g_row->in_scale ? g_row->in_scale : 1), shapes[op - OP_IN0].nseg, shapes[op - OP_IN0].nseg == 2 && shapes[op - OP_IN0].seg[0] == 3 ? ":3+2" : "",
                  shapes[op - OP_IN0].future ? ",future" : "", shapes[op - OP_IN0].shared ? ",2nd segment shared" : "");
     else if (op == OP_OUT_S0) snprintf(b, n, "set_output(S0)");
     else if (op == OP_OUT_S1) snprintf(b, n, "set_output(S1:rejecting)");
@@ -775,6 +1291,7 @@ static void opstr(int op, char *b, size_t n)
     else if (op == OP_PROBE_DROP) snprintf(b, n, "toggle(probe drops)");
     else if (op == OP_UPREQ) snprintf(b, n, "toggle(upstream request, pushes a buffer when answered)");
     else if (op == OP_PROBE_TEARDOWN) snprintf(b, n, "probe releases all subpipes on source_end");
+    else if (op == OP_IN_PUMP && g_row && g_row->pump_to_main) snprintf(b, n, "source pump fires: input(shape 0) with upump_p into the main pipe");
     else if (op == OP_IN_PUMP) snprintf(b, n, "source pump fires: input(size=2) with upump_p");
     else if (op == OP_TD_ORDER) snprintf(b, n, "loops dispatch the last ready pump first");
     else if (op == OP_RELEASE) snprintf(b, n, "release");
@@ -811,6 +1328,8 @@ static int on_event(struct px_fix *fx, struct upipe *upipe, int event, va_list a
 }
 
 static struct st *g_cur_st;
+/* the pipe that takes the flow definitions and the buffers */
+static struct upipe *in_pipe(struct side *s) { return g_row->sub_io ? s->subs[0] : s->pipe; }
 static void do_input(struct st *st, struct side *s, int sh, bool primary, bool reentrant);
 static int up_provide(struct urequest *urequest, va_list args)
 {
@@ -820,7 +1339,7 @@ static int up_provide(struct urequest *urequest, va_list args)
     s->up_provided++;
     struct st *st = g_cur_st;
     /* the upstream now has what it was waiting for and pushes a buffer at once */
-    if (s->pipe != NULL && st->flow != 0)
+    if (s->pipe != NULL && in_pipe(s) != NULL && st->flow != 0)
         do_input(st, s, 0, s == &st->a, true);
     return UBASE_ERR_NONE;
 }
@@ -829,7 +1348,7 @@ static void src_pump_cb(struct upump *upump)
 {
     struct side *s = upump_get_opaque(upump, struct side *);
     struct st *st = g_cur_st;
-    if (s->pipe == NULL || st->flow == 0)
+    if (s->pipe == NULL || (!g_row->pump_to_main && (in_pipe(s) == NULL || st->flow == 0)))
         return;
     s->in_pump = true;
     do_input(st, s, 0, s == &st->a, false);
@@ -847,7 +1366,7 @@ static void side_init(struct st *st, struct side *s, bool with_getters)
     s->fx.sinks[1].reject = true;
     for (int i = 0; i < PX_NSINKS; i++) {
         s->fx.sinks[i].unhandled_requests = true; /* requests end up at the probes, which provide */
-        s->fx.sinks[i].sync_provide = g_prov != 0; /* ... or the sinks answer with the shared managers */
+        s->fx.sinks[i].sync_provide = g_prov != 0 && !g_row->out_not_block; /* ... or the sinks answer with the shared managers */
     }
     urequest_init_uref_mgr(&s->up_req, up_provide, NULL);
     urequest_set_opaque(&s->up_req, s);
@@ -999,10 +1518,15 @@ static void do_input(struct st *st, struct side *s, int sh, bool primary, bool r
         if (seq >= MAXSEQ - 1)
             return;
         struct ubuf *held = NULL;
-        struct uref *u = px_uref_segs(fx, seq, shapes[sh].seg, shapes[sh].nseg, true, shapes[sh].shared ? &held : NULL);
+        int sc = g_row->in_scale ? g_row->in_scale : 1;
+        int seg[2] = {shapes[sh].seg[0] * sc, shapes[sh].seg[1] * sc};
+        bool custom = g_row->mk_input != NULL || g_row->in_tab != NULL;
+        struct uref *u = g_row->mk_input ? g_row->mk_input(s, seq, sh, shapes[sh].shared ? &held : NULL)
+                         : g_row->in_tab ? mk_table(s, seq, sh, shapes[sh].shared ? &held : NULL)
+                                         : px_uref_segs(fx, seq, seg, shapes[sh].nseg, true, shapes[sh].shared ? &held : NULL);
         if (held != NULL && s->nheld < MAXSEQ)
             s->held[s->nheld++] = held;
-        if (shapes[sh].future)
+        if (shapes[sh].future && !custom)
             uref_clock_set_cr_sys(u, fx->clock.now + 500);
         if (primary) {
             struct expect *x = &st->exp[seq];
@@ -1011,8 +1535,8 @@ static void do_input(struct st *st, struct side *s, int sh, bool primary, bool r
             x->future = shapes[sh].future;
             x->stamp = fx->stamp;
             x->rec.seq = seq;
-            x->rec.size = shapes[sh].size;
-            x->rec.nbytes = shapes[sh].size > PX_MAXBYTES ? PX_MAXBYTES : shapes[sh].size;
+            x->rec.size = shapes[sh].size * sc;
+            x->rec.nbytes = x->rec.size > PX_MAXBYTES ? PX_MAXBYTES : x->rec.size;
             for (int i = 0; i < x->rec.nbytes; i++)
                 x->rec.bytes[i] = px_octet(seq, i);
             px_attr_dump(u, x->rec.attrs, sizeof(x->rec.attrs));
@@ -1038,7 +1562,7 @@ static void do_input(struct st *st, struct side *s, int sh, bool primary, bool r
                 for (int k = 0; k < 4; k++)
                     x->mustnot[k] = true;
         }
-        upipe_input(s->pipe, u, s->in_pump ? &s->src_pump : NULL);
+        upipe_input(s->in_pump && g_row->pump_to_main ? s->pipe : in_pipe(s), u, s->in_pump ? &s->src_pump : NULL);
     }
 }
 
@@ -1052,8 +1576,9 @@ static int apply_side(struct st *st, struct side *s, int op, bool primary)
             ubase_assert(uref_block_flow_set_size(f, 2));
             ubase_assert(uref_block_flow_set_octetrate(f, 1000));
             ubase_assert(uref_clock_set_latency(f, 77));
-        }
-        e = upipe_set_flow_def(s->pipe, f);
+        } else if (g_row->flow_fix)
+            g_row->flow_fix(f, op == OP_FLOW1 ? 1 : 2);
+        e = upipe_set_flow_def(in_pipe(s), f);
         uref_free(f);
     } else if (op >= OP_IN0 && op < OP_IN0 + NSHAPES) {
         do_input(st, s, op - OP_IN0, primary, false);
@@ -1122,13 +1647,15 @@ static bool op_enabled(struct st *st, int op)
         return (op == OP_PUMP0 || op == OP_PUMP1) ? r->uses_pumps
              : (op == OP_SUB_REL0) ? s->subs[0] != NULL
              : (op == OP_SUB_REL1) ? s->subs[1] != NULL : false;
+    if (r->sub_io && s->subs[0] == NULL && (op == OP_FLOW1 || op == OP_FLOW2 || op == OP_FLOWBAD || (op >= OP_IN0 && op < OP_IN0 + NSHAPES) || (op == OP_IN_PUMP && !r->pump_to_main)))
+        return false; /* the input subpipe does not exist (yet / any more) */
     if (op == OP_FLOWBAD)
         return r->bad_def != NULL;
     if (op >= OP_IN0 && op < OP_IN0 + NSHAPES) {
         int sh = op - OP_IN0;
         if (!st->flow || st->nseq >= MAXSEQ - 1)
             return false;
-        if (shapes[sh].future && strcmp(r->name, "time_limit"))
+        if (shapes[sh].future && strcmp(r->name, "time_limit") && !r->in_tab && !r->mk_input)
             return false;
         if (!strncmp(r->name, "skip", 4) && st->optmodel[0] >= 0 && (int)skip_vals[st->optmodel[0]] > shapes[sh].size)
             return false; /* skipping more than the buffer holds is not defined */
@@ -1161,9 +1688,9 @@ static bool op_enabled(struct st *st, int op)
     if (op == OP_UPREQ)
         return r->kind == K_ONE2ONE || r->kind == K_DUP || r->kind == K_HOLD;
     if (op == OP_PROBE_TEARDOWN)
-        return r->has_subs && !s->probe_teardown;
+        return r->has_subs && !r->sub_io && !s->probe_teardown;
     if (op == OP_IN_PUMP)
-        return r->kind != K_SINK && st->flow != 0 && st->nseq < MAXSEQ - 1 && vmock_pump_from_upump(s->src_pump)->active &&
+        return r->kind != K_SINK && (st->flow != 0 || r->pump_to_main) && st->nseq < MAXSEQ - 1 && vmock_pump_from_upump(s->src_pump)->active &&
                !(!strncmp(r->name, "skip", 4) && st->optmodel[0] >= 0 && (int)skip_vals[st->optmodel[0]] > shapes[0].size) &&
                !(!strcmp(r->name, "genaux") && st->optmodel[0] == 2);
     if (op == OP_TD_ORDER)
@@ -1250,6 +1777,8 @@ static int apply(void *vst, int op, bool check)
             }
     if (op == OP_SUB_REL0 || op == OP_SUB_REL1)
         st->om[1 + op - OP_SUB_REL0].live = false;
+    if (op == OP_SUB_REL0 && g_row->sub_io)
+        st->flow = 0; /* a new input subpipe starts without a definition */
     if (op == OP_TOGGLE_S0)
         st->sink_toggled = true;
     if (op == OP_FLUSH)
@@ -1410,7 +1939,7 @@ static int final_check(void *vst)
     g_cur_st = st;
     struct side *sides[2] = {&st->a, st->two ? &st->b : NULL};
     bool was_released = st->released;
-    if (!was_released && g_row->uses_pumps) {
+    if (!was_released && g_row->uses_pumps && !g_row->endless) {
         /* let the loop deliver what is held before the application lets go */
         for (int k = 0; k < 2; k++) {
             int budget = 200;
@@ -1560,6 +2089,15 @@ static int final_check(void *vst)
             for (int i = 0; i < sides[k]->nheld; i++)
                 ubuf_free(sides[k]->held[i]);
             sides[k]->nheld = 0;
+            struct ubuf_mgr *aux[2] = {sides[k]->pic_mgr, sides[k]->sound_mgr};
+            for (int i = 0; i < 2; i++)
+                if (aux[i] != NULL) {
+                    if (aux[i]->refcount && uatomic_load(&aux[i]->refcount->refcount) != 1 && (g_oracle & O_C01))
+                        FAIL(st, "end:upstream-ubuf-mgr-refs", "the upstream's %s manager has %u references after teardown (expected 1)", i ? "sound" : "picture",
+                             (unsigned)uatomic_load(&aux[i]->refcount->refcount));
+                    ubuf_mgr_release(aux[i]);
+                }
+            sides[k]->pic_mgr = sides[k]->sound_mgr = NULL;
             urequest_clean(&sides[k]->up_req);
         }
     char sg[96] = "";
